@@ -88,6 +88,45 @@ def merge(results):
     return out
 
 
+def reachmap(prop, entered):
+    """functions of the property's anchor files (properties.jsonl) the workload entered / never entered"""
+    if entered is None:
+        return {"note": "sys.monitoring unavailable: no reach map"}
+    import ast
+    entered = set(entered)
+    files = []
+    try:
+        with open(os.path.join(env.VERIF, "properties.jsonl")) as f:
+            for l in f:
+                p = json.loads(l)
+                if p["id"] == prop:
+                    files = p["anchors"]["files"]
+    except Exception:
+        pass
+    out = {"repository_functions_entered": len(entered), "anchor_files": {}}
+    for rel in files:
+        try:
+            tree = ast.parse(open(os.path.join(env.REPO, rel)).read())
+        except Exception:
+            continue
+        defined = []
+
+        def walk(node, prefix):
+            for ch in ast.iter_child_nodes(node):
+                if isinstance(ch, (ast.FunctionDef, ast.AsyncFunctionDef)):
+                    defined.append(prefix + ch.name)
+                    walk(ch, prefix + ch.name + ".<locals>.")
+                elif isinstance(ch, ast.ClassDef):
+                    walk(ch, prefix + ch.name + ".")
+                else:
+                    walk(ch, prefix)
+        walk(tree, "")
+        hit = [d for d in defined if "%s:%s" % (rel, d) in entered]
+        out["anchor_files"][rel] = {"functions_defined": len(defined), "functions_entered": len(hit),
+                                    "never_entered": sorted(set(defined) - set(hit))[:80]}
+    return out
+
+
 def write_replay(prop, n, v):
     d = os.path.join(env.WORK, "replays", prop)
     os.makedirs(d, exist_ok=True)
@@ -167,6 +206,7 @@ def check(prop, tier, seed):
             problems.append("deciding monitor not reached: %s" % why)
             reach_ok = False
     wall = time.time() - t0
+    reach_map = reachmap(prop, m["sets"].pop("reach.functions", None))
     cov = dict(evaluations=m["evaluations"], distinct_nontrivial=nontriv, rule=mod.RULE,
                samples=m["samples"] or [{"note": "no sample recorded"}],
                counters={k: m["counters"][k] for k in sorted(m["counters"])},
@@ -175,7 +215,7 @@ def check(prop, tier, seed):
                known_findings_seen=sorted(known_seen), known_finding_violations=nknown,
                new_violation_kinds=sorted(set(v.get("kind") for v in new)),
                verdict=("violated" if new else ("inconclusive" if problems else "held on what was observed")),
-               problems=problems[:10], jobs=len(jobs))
+               problems=problems[:10], jobs=len(jobs), reach_map=reach_map)
     ev = dict(property_id=prop, tier=tier, seed=seed, level=mod.LEVEL, coverage=cov,
               assumptions=list(getattr(mod, "ASSUMPTIONS", [])), wall_s=round(wall, 2), violations=nviol_total)
     from ovf import evidence
